@@ -413,6 +413,11 @@ func renderSweep() {
 							ch := filled(p.w, p.h, "?", &dummy{})
 							ii := i
 							fillChild(&ch, int(p.w), int(p.h), func(xx, yy int) string { return glyph(ii, xx, yy) })
+							if i == 1 {
+								// the second child leaves its last cell unwritten: it is blank, and as much part of
+								// the child as the others (it covers what lies below)
+								ch.Buffer[len(ch.Buffer)-1] = vaxis.Cell{}
+							}
 							// a grandchild to exercise nested clipping
 							if i == 0 {
 								gc := filled(2, 2, "?", &dummy{})
@@ -445,6 +450,9 @@ func renderSweep() {
 									continue
 								}
 								g := glyph(i, xx, yy)
+								if i == 1 && xx == int(p.w)-1 && yy == int(p.h)-1 {
+									g = " "
+								}
 								if i == 0 && xx >= 1 && yy >= 1 && xx-1 < 2 && yy-1 < 2 {
 									g = gglyph(xx-1, yy-1) // grandchild 2x2 at (1,1), clipped to the child
 								}
@@ -459,7 +467,11 @@ func renderSweep() {
 						g := t.Grid()
 						for y := 0; y < H && bad == ""; y++ {
 							for x := 0; x < W; x++ {
-								if g[y][x].Text != want[y][x] {
+								got := g[y][x].Text
+								if got == "" {
+									got = " "
+								}
+								if got != want[y][x] {
 									bad = fmt.Sprintf("cell (%d,%d) shows %q, the reference painter has %q", x, y, g[y][x].Text, want[y][x])
 									break
 								}
